@@ -2,7 +2,8 @@
 # re-runs the quick checks against EVERY kept seeded change (the properties recorded in its meta.json), sequentially;
 # usage: seed_rerun_all.sh [name-prefix]    log: /tmp/seed-rerun.log
 cd /verif
-for d in seeded/${1}*/; do
+# SEED_LIST=<file with seed names> restricts the run; SEED_TAG=<x> lets several runs work side by side
+for d in $( if [ -n "$SEED_LIST" ]; then sed 's#^#seeded/#; s#$#/#' $SEED_LIST; else ls -d seeded/${1}*/; fi ); do
   name=$(basename $d)
   props=$(python3 - "$d/meta.json" <<'PY'
 import json,sys
